@@ -134,6 +134,56 @@ theorem C19_unbalanced_rejected (relTol δ : K) (hr : 0 ≤ relTol) (hδ : relTo
     lt_of_lt_of_le (mul_lt_mul_of_pos_right hδ hpos) h
   simp only [this, decide_true, Bool.not_true]
 
+private theorem foldl_max_scale (c : K) (hc : 0 < c) (l : List K) (m0 : K) :
+    (l.map (c * ·)).foldl (fun m x => if m < absK x then absK x else m) (c * m0)
+      = c * l.foldl (fun m x => if m < absK x then absK x else m) m0 := by
+  induction l generalizing m0 with
+  | nil => rfl
+  | cons a t ih =>
+    simp only [List.map_cons, List.foldl_cons]
+    have ha : absK (c * a) = c * absK a := by
+      rw [absK_eq_abs, absK_eq_abs, abs_mul, abs_of_pos hc]
+    have hstep : (if c * m0 < absK (c * a) then absK (c * a) else c * m0)
+        = c * (if m0 < absK a then absK a else m0) := by
+      rw [ha]
+      by_cases h : m0 < absK a
+      · rw [if_pos h, if_pos (mul_lt_mul_of_pos_left h hc)]
+      · rw [if_neg h, if_neg (fun h' => h (lt_of_mul_lt_mul_left h' hc.le))]
+    rw [hstep]
+    exact ih _
+
+private theorem listSum_scale_aux (c : K) (l : List K) (acc : K) :
+    (l.map (c * ·)).foldl (· + ·) (c * acc) = c * l.foldl (· + ·) acc := by
+  induction l generalizing acc with
+  | nil => rfl
+  | cons a t ih =>
+    simp only [List.map_cons, List.foldl_cons]
+    rw [← mul_add]
+    exact ih _
+
+/-- **The balance test has no absolute scale**: multiplying every current by the same positive factor (another current unit,
+    a device with another `K0`, currents of a few nA instead of a few µA) does not change the verdict.  (An absolute tolerance on
+    the `J_scale`-scaled currents — a seeded change of round 12 — breaks exactly this.) -/
+theorem C19_balance_scale_invariant (relTol c : K) (hc : 0 < c) (l : List K) :
+    currentsAccepted relTol (l.map (c * ·)) = currentsAccepted relTol l := by
+  unfold currentsAccepted
+  have hmax : maxAbs (l.map (c * ·)) = c * maxAbs l := by
+    unfold maxAbs
+    have := foldl_max_scale c hc l 0
+    rwa [mul_zero] at this
+  have hsum : listSum (l.map (c * ·)) = c * listSum l := by
+    unfold listSum
+    have := listSum_scale_aux c l 0
+    rwa [mul_zero] at this
+  rw [hmax, hsum]
+  have habs : absK (c * listSum l) = c * absK (listSum l) := by
+    rw [absK_eq_abs, absK_eq_abs, abs_mul, abs_of_pos hc]
+  rw [habs]
+  have hiff : (relTol * (c * maxAbs l) < c * absK (listSum l)) ↔ (relTol * maxAbs l < absK (listSum l)) := by
+    rw [show relTol * (c * maxAbs l) = c * (relTol * maxAbs l) by ring]
+    exact ⟨fun h => lt_of_mul_lt_mul_left h hc.le, fun h => mul_lt_mul_of_pos_left h hc⟩
+  simp only [hiff]
+
 end currents
 
 section guard
